@@ -182,28 +182,63 @@ fn harness_target() -> PathBuf {
     PathBuf::from(std::env::var("VERIF_HARNESS_TARGET").unwrap_or_else(|_| "/verif/target/harness".into()))
 }
 
+pub enum CosimLoadError {
+    /// the .so is stale and cargo did not finish within the budget: the arm is skipped (counted)
+    BuildTimeout(String),
+    /// cargo failed / dlopen failed: the arm cannot be exercised at all
+    Failed(String),
+}
+
 /// Build `libveryl_cosim.so` from the working tree (no-op when fresh) and dlopen it.
-pub fn load_cosim() -> Result<CosimLib, String> {
+/// A stale library is never used: if the rebuild does not finish within `timeout_s` the
+/// caller skips the arm.
+pub fn load_cosim(timeout_s: u64) -> Result<CosimLib, CosimLoadError> {
     let repo = std::env::var("VERIF_REPO").unwrap_or_else(|_| "/repo".into());
     let tdir = harness_target().join("cosim");
-    let out = std::process::Command::new("cargo")
+    let log = tdir.join("verif_build.log");
+    let _ = std::fs::create_dir_all(&tdir);
+    let logf = std::fs::File::create(&log).map_err(|e| CosimLoadError::Failed(format!("cannot create {}: {e}", log.display())))?;
+    let mut child = std::process::Command::new("cargo")
         .args(["build", "--release", "--offline", "--locked", "-j", "6", "--manifest-path"])
         .arg(format!("{repo}/crates/cosim/Cargo.toml"))
         .arg("--target-dir")
         .arg(&tdir)
+        // always the same configuration, wherever the monitor was started from: cargo's
+        // config search starts at the working directory (harness/.cargo/config.toml adds
+        // `--cfg veryl_verif`, which would rebuild the whole tree on every alternation)
+        .current_dir(&repo)
         .env_remove("RUSTFLAGS")
-        .output()
-        .map_err(|e| format!("cannot run cargo: {e}"))?;
-    if !out.status.success() {
-        let err = String::from_utf8_lossy(&out.stderr);
-        return Err(format!("cargo build of veryl-cosim failed: {}", err.lines().rev().take(4).collect::<Vec<_>>().join(" | ")));
+        .stdout(std::process::Stdio::null())
+        .stderr(logf)
+        .spawn()
+        .map_err(|e| CosimLoadError::Failed(format!("cannot run cargo: {e}")))?;
+    let deadline = std::time::Instant::now() + std::time::Duration::from_secs(timeout_s);
+    let status = loop {
+        match child.try_wait() {
+            Ok(Some(st)) => break st,
+            Ok(None) => {
+                if std::time::Instant::now() > deadline {
+                    let _ = child.kill();
+                    let _ = child.wait();
+                    return Err(CosimLoadError::BuildTimeout(format!(
+                        "libveryl_cosim.so is stale and `cargo build` of crates/cosim did not finish within {timeout_s} s (--set cosim_build_timeout_s=N to wait longer; the build continues where it stopped next time)"
+                    )));
+                }
+                std::thread::sleep(std::time::Duration::from_millis(300));
+            }
+            Err(e) => return Err(CosimLoadError::Failed(format!("waiting for cargo: {e}"))),
+        }
+    };
+    if !status.success() {
+        let err = std::fs::read_to_string(&log).unwrap_or_default();
+        return Err(CosimLoadError::Failed(format!("cargo build of veryl-cosim failed: {}", err.lines().rev().take(4).collect::<Vec<_>>().join(" | "))));
     }
     let so = tdir.join("release").join("libveryl_cosim.so");
     unsafe {
-        let lib = libloading::Library::new(&so).map_err(|e| format!("dlopen {}: {e}", so.display()))?;
+        let lib = libloading::Library::new(&so).map_err(|e| CosimLoadError::Failed(format!("dlopen {}: {e}", so.display())))?;
         macro_rules! sym {
             ($n:literal) => {
-                *lib.get($n).map_err(|e| format!("symbol {}: {e}", String::from_utf8_lossy($n)))?
+                *lib.get($n).map_err(|e| CosimLoadError::Failed(format!("symbol {}: {e}", String::from_utf8_lossy($n))))?
             };
         }
         Ok(CosimLib {
@@ -327,6 +362,17 @@ fn cosim_case(lib: &CosimLib, dir: &std::path::Path, idx: u64, w: usize, four_st
                 let mut gk = [SvLogicVecVal { aval: 0, bval: 0 }; 4];
                 (lib.get)(h, nk.as_ptr(), &mut gk);
                 let ones = words4_pairs(&gk).iter().all(|(a, b)| *a == u32::MAX && *b == 0);
+                out.bad.push((
+                    "cosim:wide-port-truncated".into(),
+                    format!(
+                        "port width {w} > 128: cosim_open accepts the design, cosim_set drives only bits 127:0 (a[{}:128] reads {}) and cosim_get returns only bits 127:0 of the {w}-bit output ({}), without any error — the upper {} bits cannot cross the C ABI ([svLogicVecVal; 4])",
+                        w - 1,
+                        if hi_v.bits.iter().all(|d| *d == 0) { "all 0".to_string() } else { hi_v.to_bitstr() },
+                        if ones { "four all-ones words for an all-ones value" } else { "unexpected words" },
+                        hi_w
+                    ),
+                    json!({"cosim": true, "width": w, "four_state": four_state, "wide": true}),
+                ));
                 out.wide_observations.push(format!(
                     "width {w}: after cosim_set(a, 128 bits) the design sees a[{}:128] = {} ; cosim_get of the all-ones {w}-bit output k returns {} (the upper {} bits are not reported)",
                     w - 1,
@@ -859,10 +905,18 @@ pub fn main(args: Args) {
     }
 
     // ---------------- (b)
+    let mut cosim_skipped = false;
     if on("cosim") {
-        match load_cosim() {
-            Err(e) => {
+        match load_cosim(args.budget("cosim_build_timeout_s", 150, 5400)) {
+            Err(CosimLoadError::Failed(e)) => {
                 run.inconclusive(format!("cosim C ABI not exercised: {e}"));
+            }
+            Err(CosimLoadError::BuildTimeout(e)) => {
+                // requested behaviour: do not block the quick tier on a full rebuild
+                cosim_skipped = true;
+                run.count("cosim_arm_skipped_library_stale", 1);
+                run.set_extra("cosim_arm", json!(format!("SKIPPED: {e}")));
+                run.note(format!("cosim arm skipped: {e}"));
             }
             Ok(lib) => {
                 let lib = Arc::new(lib);
@@ -947,7 +1001,7 @@ pub fn main(args: Args) {
     if on("conv") {
         floors.extend([("conversions", 6000), ("conversions_of_values_with_xz", 3000), ("conversion_widths", 300)]);
     }
-    if on("cosim") {
+    if on("cosim") && !cosim_skipped {
         floors.extend([("cosim_roundtrips", 400), ("cosim_registered_roundtrips", 200), ("cosim_widths", 20), ("cosim_designs_4state", 8), ("cosim_wide_ports_observed", 3)]);
     }
     if on("dump") {
@@ -994,8 +1048,8 @@ fn replay(run: &Run, case: &Json, scratch: &std::path::Path) {
         return;
     }
     if case["cosim"].as_bool() == Some(true) {
-        match load_cosim() {
-            Err(e) => run.inconclusive(e),
+        match load_cosim(5400) {
+            Err(CosimLoadError::Failed(e)) | Err(CosimLoadError::BuildTimeout(e)) => run.inconclusive(e),
             Ok(lib) => {
                 let w = case["width"].as_u64().unwrap_or(8) as usize;
                 let four = case["four_state"].as_bool().unwrap_or(false);
